@@ -34,7 +34,7 @@ LEVEL = "proof"
 TRUSTED = ["tokens_get replaced by a stream contract that emits an arbitrary unbounded stream over {EOF, EOL, '.', '#', endif, else, if, ifdef, ifndef, ENDIF, other}",
            "strcasecmp replaced by a loop-free contract for strings of at most 7 characters"]
 MANIFEST = {
-    "text": "Unbounded proof (DFCC loop contract, ghost nesting depth) that skipping an untaken branch stops exactly at the matching .else/.endif; loop-free contracts that the taken/untaken branch protocol follows the condition and that errors propagate; leaf contracts on the condition operators.",
-    "note": "Token reader, expression evaluator and the nested assemble() are replaced by their contracts; the .endif protocol defect of taken branches is a listed known finding.",
+    "text": "Unbounded proof (DFCC loop contract, ghost nesting depth) that skipping an untaken branch stops exactly at the matching .else/.endif; loop-free contracts that the taken/untaken branch protocol follows the condition and that errors propagate; contracts on the condition parser (parse_ifdef_expression, get_operator, eval_operation) against the documented precedence for 44 operator sequences with symbolic operand values.",
+    "note": "Token reader, expression evaluator and the nested assemble() are replaced by their contracts; same-precedence operator chains of the recursive condition parser do not finish and are not registered.",
     "technique": "CBMC function contracts + DFCC loop contract (ghost nesting depth) on core/directives_if.cpp and core/ifdef_expression.cpp",
 }
